@@ -28,7 +28,7 @@ fn dec(g: &str, form: &str, b: &[u8], cls: &str) -> Value {
 fn affine_pool<G: Grp>(r: &mut Rng, seed: u64) -> Vec<(G::Affine, &'static str)>
 where
     G::Base: J,
-    G::Affine: CurveAffine<Projective = G>,
+    G::Affine: CurveAffine<Projective = G, Base = G::Base>,
 {
     point_pool::<G>(r, seed, false)
         .into_iter()
@@ -40,7 +40,7 @@ where
 fn c04_group<G: Grp>(r: &mut Rng, seed: u64, thorough: bool, sessions: &mut Vec<Vec<Value>>)
 where
     G::Base: J,
-    G::Affine: CurveAffine<Projective = G>,
+    G::Affine: CurveAffine<Projective = G, Base = G::Base>,
 {
     let g = G::NAME;
     let fq = fq_info();
@@ -102,6 +102,53 @@ where
             let mut b = vec![0u8; *len];
             b[0] = if *form == "c" { 0xe0 } else { 0x60 }; // infinity + sort flag
             push(&mut ops, dec(g, form, &b, "infinity-sort"));
+        }
+        // infinity flag with a non-zero payload of every shape a word-wise / accumulating zero test
+        // could let through: one stray bit at EVERY byte, equal (and byte-wise opposite) bytes at aligned
+        // distances, constant payloads, payloads made of one repeated block
+        let inf0: u8 = if *form == "c" { 0xc0 } else { 0x40 };
+        for pos in 0..*len {
+            let mut b = vec![0u8; *len];
+            b[0] = inf0;
+            b[pos] |= 1 << r.below(if pos == 0 { 5 } else { 8 });
+            push(&mut ops, dec(g, form, &b, "infinity-stray-everywhere"));
+        }
+        for dist in [1usize, 2, 4, 7, 8, 16, 24, 32, 48, 64, 96].iter() {
+            for k in 0..3 {
+                let pos = 1 + r.below((*len - dist - 1) as u64) as usize;
+                let v = 1 + r.below(255) as u8;
+                let mut b = vec![0u8; *len];
+                b[0] = inf0;
+                b[pos] = v;
+                b[pos + dist] = match k { 0 => v, 1 => v.wrapping_neg(), _ => !v };
+                push(&mut ops, dec(g, form, &b, "infinity-cancelling-pair"));
+            }
+        }
+        for v in [0x01u8, 0x80, 0xff, 0x55].iter() {
+            let mut b = vec![*v; *len];
+            b[0] = inf0;
+            push(&mut ops, dec(g, form, &b, "infinity-constant-payload"));
+            let mut b = vec![*v; *len];
+            b[0] = inf0 | (*v & 0x1f);
+            push(&mut ops, dec(g, form, &b, "infinity-constant-payload"));
+        }
+        for blk in [2usize, 4, 8, 16, 24, 48].iter() {
+            let w = r.bytes(*blk);
+            let mut b: Vec<u8> = (0..*len).map(|i| w[i % blk]).collect();
+            b[0] = inf0;
+            for i in 0..*blk { if i % blk == 0 { b[i] = inf0; } }
+            // keep the repetition exact except for the flag byte: positions congruent to 0 carry w[0]
+            push(&mut ops, dec(g, form, &b, "infinity-repeated-block"));
+            // only two copies of the block, far apart
+            let mut b = vec![0u8; *len];
+            b[0] = inf0;
+            let a0 = 8 * (1 + r.below(((*len - 2 * blk) / 16) as u64) as usize);
+            let a1 = *len - blk - 8 * r.below(2) as usize;
+            if a0 + blk <= a1 {
+                b[a0..a0 + blk].copy_from_slice(&w);
+                b[a1..a1 + blk].copy_from_slice(&w);
+                push(&mut ops, dec(g, form, &b, "infinity-two-copies"));
+            }
         }
         // the three spare top bits of every 48-byte field other than the first are VALUE bits:
         // setting any of them makes that coordinate unreduced
@@ -165,6 +212,9 @@ where
     let n = if thorough { 200 } else { if g == "G1" { 40 } else { 14 } };
     let mut pts: Vec<(G, &str)> = point_pool::<G>(r, seed, g == "G1");
     pts.push((G::zero(), "identity"));
+    for (p, c) in extreme_coord_points::<G>(seed, if g == "G1" { 400_000 } else { 300_000 }, 1) {
+        pts.push((p, c));
+    }
     for _ in 0..n {
         pts.push((G::random(&mut rng), "subgroup"));
     }
@@ -193,7 +243,8 @@ where
     // the only accepted preimage: decoding of valid encodings, of the same bytes with each flag
     // toggled, and with single bits flipped (an accepted string must re-encode to itself)
     let mut ops = vec![];
-    for (i, (p, cls)) in pts.iter().enumerate().take(if thorough { 60 } else { 10 }) {
+    let lim = if thorough { 60 } else { 10 };
+    for (i, (p, cls)) in pts.iter().enumerate().filter(|(i, (_, c))| *i < lim || c.starts_with("coord-")) {
         let a = p.into_affine();
         for form in ["c", "u"].iter() {
             let b = if *form == "c" { a.into_compressed().as_ref().to_vec() } else { a.into_uncompressed().as_ref().to_vec() };
@@ -216,6 +267,40 @@ where
             }
         }
         if ops.len() >= per * 2 {
+            sessions.push(std::mem::replace(&mut ops, vec![]));
+        }
+    }
+    sessions.push(ops);
+    // strings shorter than the encoding (only the stream API can be handed them): never accepted,
+    // also when the missing tail would have been zero bytes (identity; points whose encoding ends in 00)
+    let mut ops = vec![];
+    for form in ["c", "u"].iter() {
+        let enc = |a: &G::Affine| if *form == "c" { a.into_compressed().as_ref().to_vec() } else { a.into_uncompressed().as_ref().to_vec() };
+        let idb = enc(&G::zero().into_affine());
+        let n = idb.len();
+        for cut in [0usize, 1, 47, 48, 49, 95, 96, 97, 143, 144, 191].iter().filter(|c| **c < n) {
+            ops.push(json!({"op": "decode", "g": g, "form": form, "bytes": bytes_to_j(&idb[..*cut]), "cls": "short/identity"}));
+        }
+        let mut acc = G::one();
+        let mut found = 0;
+        for _ in 0..(if thorough { 4000 } else { 1500 }) {
+            acc.add_assign(&G::one());
+            let b = enc(&acc.into_affine());
+            if b[n - 1] == 0 {
+                let zeros = b.iter().rev().take_while(|x| **x == 0).count();
+                ops.push(json!({"op": "decode", "g": g, "form": form, "bytes": bytes_to_j(&b[..n - zeros]), "cls": "short/zero-tail"}));
+                ops.push(json!({"op": "decode", "g": g, "form": form, "bytes": bytes_to_j(&b), "cls": "canonical/zero-tail"}));
+                found += 1;
+                if found >= 2 {
+                    break;
+                }
+            }
+        }
+        let b = enc(&pts[3].0.into_affine());
+        for cut in [n - 1, n - 48, 48, 1].iter() {
+            ops.push(json!({"op": "decode", "g": g, "form": form, "bytes": bytes_to_j(&b[..*cut]), "cls": "short/random-point"}));
+        }
+        if ops.len() >= per {
             sessions.push(std::mem::replace(&mut ops, vec![]));
         }
     }
@@ -289,6 +374,11 @@ where
         let pts: Vec<Value> = (0..3).map(|_| aff_to_j(&G::random(&mut rng).into_affine())).collect();
         let ks: Vec<Value> = (0..3).map(|_| nat(&rand_scalar_bits(r, 255))).collect();
         push(&mut ops, json!({"op": "prod", "g": g, "fn": "msm", "points": pts, "scalars": ks, "cls": "producer-msm"}));
+        // precomputation tables of a subgroup point and of the identity (reached as P - P as well)
+        let base = match i % 3 { 0 => G::zero(), 1 => { let mut t = p; t.sub_assign(&p); t }, _ => p };
+        let idx: Vec<u64> = vec![0, 1, 2, 128, 255, r.below(256), r.below(256)];
+        push(&mut ops, json!({"op": "prod", "g": g, "fn": "precomp", "p": proj_to_j(&base), "k": nat(&rand_scalar_bits(r, 255)),
+                              "idx": idx, "cls": if i % 3 == 2 { "producer-precomp" } else { "producer-precomp-identity" }}));
         let ml = r.below(80) as usize;
         let msg = r.bytes(ml);
         let dl = 1 + r.below(40) as usize;
@@ -374,6 +464,13 @@ pub fn wl_c19(seed: u64, tier: &str) -> Vec<Vec<Value>> {
     let mut t = G2::one();
     t.double();
     g2.push(t);
+    // coordinates in [0x1a00.., q) and below 2^376 (leading byte of a 48-byte field)
+    for (p, _) in extreme_coord_points::<G1>(seed, 400_000, 1) {
+        g1.push(p);
+    }
+    for (p, _) in extreme_coord_points::<G2>(seed, 300_000, 1) {
+        g2.push(p);
+    }
     let vals = Vals { g1, g2 };
     let types = ["Fr", "Fq12", "G1", "G1Affine", "G2", "G2Affine"];
     let fq = fq_info();
@@ -395,6 +492,32 @@ pub fn wl_c19(seed: u64, tier: &str) -> Vec<Vec<Value>> {
         }
         // one more read: only trailing bytes remain
         ops.push(st_read(*r.pick(&types), true, "read-past-end"));
+        sessions.push(ops);
+    }
+    // every point of the pools (coordinates with extreme leading bytes among them) through every
+    // point type and both flags
+    {
+        let mut ops = vec![st("reset")];
+        let mut items: Vec<(&str, bool)> = vec![];
+        for ty in ["G1", "G1Affine", "G2", "G2Affine"].iter() {
+            let n = if ty.starts_with("G1") { vals.g1.len() } else { vals.g2.len() };
+            for i in 0..n {
+                for c in [true, false].iter() {
+                    let v = match *ty {
+                        "G1" => proj_to_j(&vals.g1[i]),
+                        "G1Affine" => aff_to_j(&vals.g1[i].into_affine()),
+                        "G2" => proj_to_j(&vals.g2[i]),
+                        _ => aff_to_j(&vals.g2[i].into_affine()),
+                    };
+                    ops.push(st_write(ty, v, *c, "pool-roundtrip"));
+                    items.push((ty, *c));
+                }
+            }
+        }
+        ops.push(json!({"op": "st", "fn": "flip", "cls": "pool-roundtrip"}));
+        for (ty, c) in &items {
+            ops.push(st_read(ty, *c, "pool-roundtrip"));
+        }
         sessions.push(ops);
     }
     // many values on one stream (cursor arithmetic over a long history)
